@@ -856,9 +856,7 @@ class Tables:
 def run_structure(conv, w: World, o, t):
     try:
         r = conv.structure(o, w.to_py(t))
-    except RecursionError:
-        raise
-    except Exception as e:
+    except Exception as e:      # (a RecursionError included: values are shallow, so it is the library's own -- an outcome like any other error)
         return ("err", xclass(e), e)
     return ("ok", r, None)
 
@@ -866,8 +864,6 @@ def run_structure(conv, w: World, o, t):
 def run_unstructure(conv, w: World, x, t):
     try:
         r = conv.unstructure(x, unstructure_as=w.to_py(t))
-    except RecursionError:
-        raise
     except Exception as e:
         return ("err", xclass(e), e)
     return ("ok", r, None)
